@@ -91,7 +91,7 @@ def small_patterns():
             mk([ld, star]), mk([ld, gs]), mk([gs, lf]), mk([gs, (L('x'),)]), mk([gs, (L('y'),)]), mk([d, up, star]), mk([gs, up, star]), mk([gsl, (L('x'),)]),
             mk([gsl, star]), mk([dot, star]), mk([dd, star]), mk([d, dd, star]), mk([star, dot]), mk([gs, hid]), mk([hid, star]), mk([neg]), mk([gs, neg]),
             mk([alt]), mk([alt, star]), mk([br]), mk([gs, br], trail=True), mk([d, (L('s'),), star]), mk([star, (L('s'),), gs]), mk([gs, (L('s'),), gs, (L('y'),)]),
-            mk([gs, d, gs, (L('y'),)]), mk([d, gs, (L('s'),), gs, (L('y'),)]), mk([a], trail=True), mk([lf], trail=True), mk([ld], trail=True),
+            mk([gs, d, gs, (L('y'),)]), mk([d, gs, (L('s'),), gs, (L('y'),)]), mk([gs, (L('s'),), gs, (L('y'), L('2'))]), mk([gs, (L('x'),)], trail=False), mk([star], trail=True), mk([a], trail=True), mk([lf], trail=True), mk([ld], trail=True),
             mk([(L('d'), L('a'), L('n'), L('g'))]), mk([gs, (L('d'), L('a'), L('n'), L('g'))]), mk([d, star], dbl=True), mk([(L('S'), L('u'), L('b')), star]),
             mk([(L('n'), L('o'), L('n'), L('e'))]), mk([a, (L('r'),), gs, (L('t'),)]), mk([gs, (L('r'),), gs, (L('t'),)]), mk([gs, (L('l'), L('r')), gs])]
     return pats
@@ -103,14 +103,16 @@ def globmatch_vs_glob(item):
     out = []
     cyclic = trees.is_cyclic(spec)
     with trees.Tree(spec) as t:
-        ents = t.entries()
-        for els, flags, excl in cases:
+        ents = t.entries_through_links()
+        fd = os.open(t.root, os.O_RDONLY | os.O_DIRECTORY)
+        for idx, (els, flags, excl) in enumerate(cases):
             txt = P.render(els)
             follow = bool(flags & G.L)
             if cyclic and (follow or (flags & G.GL and ('***' in txt or flags & G.X))):
                 continue
             try:
-                kw = dict(flags=flags | G.U, root_dir=t.root)
+                # the root is given as root_dir or (every third case) as dir_fd
+                kw = dict(flags=flags | G.U, root_dir=t.root) if idx % 3 else dict(flags=flags | G.U, dir_fd=fd)
                 if excl:
                     kw['exclude'] = excl
                 got_raw = with_alarm(lambda: G.glob(txt, **kw))
@@ -143,6 +145,7 @@ def globmatch_vs_glob(item):
                 out.append(dict(tree=tname, pattern=txt, flags=flags, fl=LC.flagnames(flags), exclude=excl, kind='timeout'))
             except Exception:
                 out.append(dict(tree=tname, pattern=txt, flags=flags, fl=LC.flagnames(flags), exclude=excl, kind='error', error=traceback.format_exc()[-800:]))
+        os.close(fd)
     return out
 
 
